@@ -192,6 +192,25 @@ func c02Scenarios(tier string) []*Scenario {
 			}
 		}
 	}
+	// I5: a handler that rejects without reading its request (authorisation-style): its status
+	// and trailers reach the caller exactly, also when the rejection overtakes the caller's own
+	// sends (every synchronisation operation of the caller's send path is a scheduling point; all
+	// schedules with <= 2 deviations)
+	for _, cfg := range []TunCfg{{}, {Reverse: true}, {ServerNoFC: true}} {
+		for _, shape := range []string{"Unary", "ClientStream", "Bidi", "Unary/rev", "ClientStream/rev", "Bidi/rev"} {
+			// "/rev": second family of default schedules (the caller runs last instead of first)
+			rev := strings.HasSuffix(shape, "/rev")
+			name := shape
+			shape := strings.TrimSuffix(shape, "/rev")
+			wl := StdWorkload("r1", 1, shape, []int{3}, []int{3})
+			tmd := metadata.Pairs("why", "denied")
+			wl.Handler.Ops = []HOp{{K: "settrl", MD: tmd}, {K: "return", Code: codes.PermissionDenied, Msg: "rejected unread", Details: 1}}
+			ex := metaExpect{id: "r1", code: codes.PermissionDenied, msg: "rejected unread", details: 1, trailer: tmd, nResp: -1}
+			mk(fmt.Sprintf("c02/i5/%s/%s", cfg, name),
+				fmt.Sprintf("%s RPC over %s whose handler rejects it (PermissionDenied, one detail, a trailer) without reading the request; the rejection may overtake the caller's sends", shape, cfg),
+				cfg, wl, ex, "", Options{Level: "focus", Bound: 2, RevOrder: rev, Focus: []string{"Invoke", "NewStream", "newStream", "SendMsg", "send", "CloseSend", "RecvMsg", "readMsg", "finishStream", "cancelStream"}})
+		}
+	}
 	// I2: request metadata x headers x trailers
 	mdAlpha := []metadata.MD{nil, {}, {"a": {"1"}}, {"a": {"1", "2"}}, {"a": {"1"}, "b": {""}}, {"k-bin": {"\x00\xff\x80"}}}
 	mdName := []string{"absent", "empty", "a1", "a12", "a1b", "bin"}
